@@ -55,6 +55,70 @@ class Inconclusive(Exception):
     """The case could not be judged (budget exhausted, precondition not met)."""
 
 
+class Frozen(BaseException):
+    """Ends a Hypothesis run at once after a non_yielding_loop violation: every replay of such a
+    case costs FROZEN_CPU seconds, so it is reported as found, not shrunk."""
+
+
+FROZEN_CPU = 10.0  # CPU seconds inside server code without one scheduler iteration
+
+
+def guarded_run_case(part: Any, case: Any) -> Any:
+    """part.run_case(case) under the per-case wall guard.
+
+    Two different things can keep a case from ending. Slowness (a loaded machine, a huge case):
+    after CASE_WALL_LIMIT of wall clock the case is *inconclusive*, never a violation. A frozen
+    scheduler: the simulator's loops count their iterations (sim.common.TICKS); if the counter has
+    not moved while this process burnt FROZEN_CPU seconds of CPU *and* the interrupted stack is
+    inside the server's code, a coroutine of the server is looping without ever yielding - every
+    connection of that worker is dead. That is not a time budget running out but a violation
+    (kind non_yielding_loop) of whatever property the check stands for."""
+    import signal
+    import time
+
+    try:
+        from sim import common as simc
+        ticks = simc.TICKS
+    except Exception:  # a check without the simulator
+        ticks = [0]
+    limit = 8000.0 if isinstance(case, dict) and case.get("kind") == "campaign" \
+        else CASE_WALL_LIMIT
+    st = {"t0": time.monotonic(), "ticks": ticks[0], "cpu": time.process_time()}
+
+    def in_server_code(frame: Any) -> Optional[str]:
+        where = []
+        f = frame
+        while f is not None and len(where) < 60:
+            fn = f.f_code.co_filename
+            if "/hypercorn/" in fn or "/priority/" in fn:
+                where.append(f"{os.path.basename(fn)}:{f.f_code.co_name}:{f.f_lineno}")
+            f = f.f_back
+        return " <- ".join(where[:6]) if where else None
+
+    def on_alarm(signum: int, frame: Any) -> None:
+        now = time.monotonic()
+        if now - st["t0"] > limit:
+            raise Inconclusive(f"case exceeded {limit}s of wall clock")
+        if ticks[0] != st["ticks"]:
+            st["ticks"], st["cpu"] = ticks[0], time.process_time()
+            return
+        burnt = time.process_time() - st["cpu"]
+        if burnt >= FROZEN_CPU:
+            where = in_server_code(frame)
+            if where is not None:
+                st["cpu"] = time.process_time()
+                raise Violation("non_yielding_loop", f"{burnt:.0f} s of CPU without one "
+                                f"scheduler iteration, inside {where}")
+
+    old = signal.signal(signal.SIGALRM, on_alarm)
+    signal.setitimer(signal.ITIMER_REAL, 2.0, 2.0)
+    try:
+        return part.run_case(case)
+    finally:
+        signal.setitimer(signal.ITIMER_REAL, 0)
+        signal.signal(signal.SIGALRM, old)
+
+
 @dataclass
 class CaseInfo:
     nontrivial: bool = True
@@ -133,21 +197,8 @@ class Recorder:
 
     def run(self, case: Any) -> None:
         self.cases += 1
-        import signal
-
-        def on_alarm(signum: int, frame: Any) -> None:
-            raise Inconclusive(f"case exceeded {CASE_WALL_LIMIT}s of wall clock")
-
-        old = signal.signal(signal.SIGALRM, on_alarm)
-        limit = 8000.0 if isinstance(case, dict) and case.get("kind") == "campaign" \
-            else CASE_WALL_LIMIT
-        signal.setitimer(signal.ITIMER_REAL, limit)
         try:
-            try:
-                info = self.part.run_case(case)
-            finally:
-                signal.setitimer(signal.ITIMER_REAL, 0)
-                signal.signal(signal.SIGALRM, old)
+            info = guarded_run_case(self.part, case)
         except Inconclusive:
             self.inconclusive += 1
             self.evals += 1
@@ -167,6 +218,8 @@ class Recorder:
             if getattr(v, "replay_part", None):
                 vj["replay_part"] = v.replay_part  # a campaign reports a case of another part
             self.last_failure = (getattr(v, "replay_case", None) or case, vj)
+            if "non_yielding_loop" in v.kind + v.detail:
+                raise Frozen() from v
             raise
         if info is None:
             info = CaseInfo()
@@ -211,7 +264,7 @@ def run_shard(args: tuple) -> dict:
                     continue
                 try:
                     rec.run(case)
-                except Violation:
+                except (Violation, Frozen):
                     failure = rec.last_failure
                     break
             out["exhaustive"] = True
@@ -252,7 +305,7 @@ def _run_hypothesis(part: Part, rec: Recorder, n: int, hseed: int) -> Optional[t
 
     try:
         test()
-    except Violation:
+    except (Violation, Frozen):
         return rec.last_failure
     except hypothesis.errors.Flaky:
         # the code under test answered differently on Hypothesis' own replay (e.g. it iterates
@@ -401,7 +454,7 @@ def confirm_replay(mod: Any, part_name: str, case: Any) -> Optional[dict]:
     # JSON round trip: the replay must work from the file alone
     case = json.loads(json.dumps(case, default=repr))
     try:
-        part.run_case(case)
+        guarded_run_case(part, case)
     except Violation as v:
         return v.to_json()
     except Inconclusive:
@@ -424,7 +477,7 @@ def replay_registered(mod: Any, known: List[dict]) -> tuple:
         if part is None:
             continue
         try:
-            part.run_case(body["case"])
+            guarded_run_case(part, body["case"])
             outcome = None
         except Inconclusive:
             outcome = None
@@ -522,7 +575,7 @@ def main(argv: List[str]) -> int:
         body = json.loads(Path(a.replay).read_text())
         part = next(p for p in mod.parts() if p.name == body["part"])
         try:
-            part.run_case(body["case"])
+            guarded_run_case(part, body["case"])
         except Violation as v:
             print(f"VIOLATION property={mod.PROPERTY} replay={a.replay}")
             print(f"  part={body['part']} kind={v.kind} tags={v.tags}\n  detail={v.detail[:2000]}")
